@@ -384,6 +384,9 @@ bool SessionManager::send(const PeerId& peer_id, std::span<const std::uint8_t> p
 
     std::copy(ciphertext.begin(), ciphertext.end(), buffer.begin() + kNonceSize + kLengthFieldSize);
 
+    // One frame at a time per session: a blocking send that waits for buffer space lets
+    // another thread's send on the same socket slip in, which would interleave two frames.
+    std::scoped_lock write_lock(session->write_mutex);
     return send_all(session->socket, buffer.data(), buffer.size());
 }
 
